@@ -28,6 +28,9 @@ type Layout struct {
 	AfterTips bool `json:"after_tips,omitempty"`
 	// ENum: numbers in exponent notation with an upper-case E (1.0E-4, as Java programs print them)
 	ENum bool `json:"enum,omitempty"`
+	// SameLine: trees are written two per line ("(a,b);(c,d);", 1 = nothing between them, 2 = a
+	// blank between them); a last odd tree stands alone
+	SameLine int `json:"same_line,omitempty"`
 }
 
 // MultiNewick lays out the trees one record per ';' at a line end.
@@ -79,6 +82,13 @@ func MultiNewick(ms []*ref.Node, l Layout) string {
 			if pad := (l.PadLast - lineLen%l.PadLast) % l.PadLast; pad > 0 {
 				b.WriteString(strings.Repeat(" ", pad))
 			}
+		}
+		if l.SameLine > 0 && i%2 == 0 && !last {
+			// the next tree follows on the same line
+			if l.SameLine == 2 {
+				b.WriteString(" ")
+			}
+			continue
 		}
 		if !(last && l.NoFinalNewline) {
 			b.WriteString(nl)
